@@ -720,8 +720,19 @@ VCLAUSE(numerics, 60, 12000, 250000, "method name differs from a valid one by on
 			f = [=](double x) { return x == a ? nanv : x - (a + 0.3 * w); };
 		if(!(a < b))
 			throw Discard();
-		VLOG(c, "Find_Root kind=" << kind << " on [" << a << "," << b << "]");
-		REQUEST(c, "Find_Root bracket", kind == 0, g_sink = s.coin() ? Find_Root(f, a, b, 1e-8 * w) : Find_Root(f, b, a, 1e-8 * w));
+		bool forward = s.coin();
+		// the function's own scale is no part of the request: values whose product under- or overflows still have (or lack) a sign change.
+		// Drawn last: saved cases of the earlier decoder keep their meaning (an exhausted sequence yields amplitude 1).
+		int ak = s.pick({3, 1, 1});
+		double amp = ak == 0 ? 1.0 : (ak == 1 ? std::pow(10.0, -s.uniform(150, 300)) : std::pow(10.0, s.uniform(100, 290)));
+		if(ak != 0)
+		{
+			std::function<double(double)> f0 = f;
+			f = [=](double x) { return amp * f0(x); };
+			c.cls(ak == 1 ? "find_root_tiny_values" : "find_root_huge_values");
+		}
+		VLOG(c, "Find_Root kind=" << kind << " on [" << a << "," << b << "] function scaled by " << amp);
+		REQUEST(c, "Find_Root bracket", kind == 0, g_sink = forward ? Find_Root(f, a, b, 1e-8 * w) : Find_Root(f, b, a, 1e-8 * w));
 	}
 }
 
